@@ -35,7 +35,11 @@ def dispatch (prop : String) (input : String) (impl : String) : String × String
   | "C13" => Lin.Drv.judge input impl
   | "C14" => (Route.Drv.handle input, Route.Drv.handleSpec input, "")
   | "C19" => (C19.Drv.handle input, C19.Drv.handleSpec input, "")
-  | "C01" => (Env.Drv.handle input, Env.Drv.handle input, "")
+  | "C01" =>
+    -- honest envelopes against the round-trip model; hand-sealed envelopes with foreign sender hints (the "true sender key"
+    -- clause) against the C02 contract
+    if input.endsWith "|none" then (Env.Drv.handle input, Env.Drv.handle input, "")
+    else let r := Env.Drv.judgeMut input impl; (r.1, r.2, "")
   | "C02" => let r := Env.Drv.judgeMut input impl; (r.1, r.2, "")
   | "C05" => Kms.Drv.judge05 input impl
   | "C06" => Kms.Drv.judge06 input impl
